@@ -19,7 +19,7 @@ RULE = ("Case = (ordering in {random, sorted, reversed, alternating sign, consta
         "level: IncrementalPFI / IncrementalSage runs whose losses carry a large common offset (1e6..1e12), float run vs exact-rational "
         "twin with identical seeds: |delta importance| <= 16 (d+2) t eps max(|loss|, scale) after every call; TIGHT variant (IncrementalPFI, one inner "
         "sample, integer data / model / loss values with a power-of-two offset 2^30..2^40, so that every loss and every per-observation difference is exact): "
-        "|delta importance| <= 16 (d+2) t eps max(1, SPREAD of the losses) - a large common loss level must not cost digits; QUIET TAIL: an active stream followed by "
+        "|delta importance| <= 16 (d+2) t eps max(1, SPREAD of the losses) - a large common loss level must not cost digits; a third of these cases instead scale all data by 2^-15 / 2^-20 (two inner samples, squared loss ~1e-9..1e-12, still exact) - small magnitudes must not cost digits either; QUIET TAIL: an active stream followed by "
         "hundreds to thousands of constant observations (dynamic setting, alpha 0.3..0.9) so that the smoothed importances decay through the "
         "subnormal range to zero - importance values, variances, both normalised views and the confidence bounds must stay finite throughout. Non-trivial: kappa >= 1e3 "
         "and n >= 1e3 (trackers) / offset >= 1e6 and >= 3 explained observations (explainers); distinct by case digest.")
@@ -172,6 +172,8 @@ def run_explainer(case):
             try:
                 ex.explain_one(x, y, **kw)
             except TypeError as e:
+                if mode == 'exact' and case.get('tight'):
+                    return _tight_by_reference(case)      # no exact twin: the closed-form reference on the float run decides
                 if mode == 'exact':   # float-only (NumPy) functions applied to losses: no exact twin available for this implementation
                     return Result(True, nontrivial=False, labels=['exact_arithmetic_unsupported'])
                 return Result(False, key='C20:explainer:exception:TypeError', detail=f'[{mode}] {e!r}')
@@ -184,9 +186,10 @@ def run_explainer(case):
             # every loss value is an exactly representable integer (plus a power-of-two offset): the per-observation differences are
             # exact, so the error must be relative to the SPREAD of the losses, not to their level - a large common offset must not cost digits
             lv = [float(c[2]) for c in h.loss.calls] or [0.0]
-            if any(v != int(v) or abs(v) >= 2.0 ** 52 for v in lv):
+            unit = 2.0 ** (-2 * case.get('shift', 0))          # data scaled by 2^-shift: squared losses are multiples of 2^(-2 shift)
+            if any((v / unit) != int(v / unit) or abs(v / unit) >= 2.0 ** 51 for v in lv):
                 return Result(True, nontrivial=False, labels=['tight_not_applicable'])
-            scales[mode] = max(max(lv) - min(lv), 1.0)
+            scales[mode] = max(max(lv) - min(lv), unit)
     d = cfg['d']
     explained = 0
     for t, (a, b) in enumerate(zip(outs['exact'], outs['float']), start=1):
@@ -204,7 +207,52 @@ def run_explainer(case):
                               detail=(f'call {t}: importance of {f!r} float {float(g)!r} vs exact {float(a[f])!r}: error {err:.3g} > '
                                       f'16(d+2)t eps max|loss| = {tol:.3g} (loss offset {cfg["loss"].get("offset")})'))
     off = abs(cfg['loss'].get('offset') or 0)
-    return Result(True, nontrivial=off >= 1e6 and explained >= 3, labels=[case['cls'], f'offset={off:g}'] + (['tight'] if case.get('tight') else []))
+    return Result(True, nontrivial=(off >= 1e6 or bool(case.get('shift'))) and explained >= 3,
+                  labels=[case['cls'], f'offset={off:g}'] + (['tight'] if case.get('tight') else []) + ([f"shift={case['shift']}"] if case.get('shift') else []))
+
+
+def _tight_by_reference(case):
+    """Tight variant when the implementation rejects exact rationals: the float run is compared with the independent closed-form PFI
+    reference (exact rationals) evaluated on the imputer calls recorded during that very run - all recorded values are exact dyadic numbers."""
+    cfg = dict(case['cfg'], mode='float')
+    h = cfgs.Harness(cfg, record_imputer=True)
+    random.seed(cfg['seeds'][0])
+    np.random.seed(cfg['seeds'][1])
+    ex = h.pfi()
+    h.prefill(ex)
+    r = refx.PfiRef(cfg)
+    d = cfg['d']
+    explained = 0
+    for t, row in enumerate(cfg['stream']):
+        x, y = h.row(row)
+        mark = len(h.imputer.calls)
+        seen = ex.seen_samples
+        try:
+            ex.explain_one(x, y)
+        except Exception as e:
+            return Result(False, key=f'C20:explainer:exception:{type(e).__name__}', detail=f'[float] {e!r}')
+        calls = h.imputer.calls[mark:]
+        if seen == 0 or not calls:
+            continue
+        err = r.step(x, y, calls, cfg['n_inner'])
+        if err:
+            return Result(True, nontrivial=False, labels=['tight_reference_not_applicable'], detail=str(err))
+        explained += 1
+        lv = [float(c[2]) for c in h.loss.calls] or [0.0]
+        unit = 2.0 ** (-2 * case.get('shift', 0))
+        if any((v / unit) != int(v / unit) or abs(v / unit) >= 2.0 ** 51 for v in lv):
+            return Result(True, nontrivial=False, labels=['tight_not_applicable'])
+        spread = max(max(lv) - min(lv), unit)
+        tol = 16 * (d + 2) * (t + 1) * EPS * spread
+        want = r.expected()['importance_values']
+        got = {refx.norm_key(k): v for k, v in ex.importance_values.items()}
+        for f, w in want.items():
+            g = got.get(f)
+            if g is None or not math.isfinite(float(g)) or abs(float(Q(float(g)) - w)) > tol:
+                return Result(False, key='C20:explainer:pfi:drift',
+                              detail=(f'call {t + 1}: importance of {f!r} float {g!r} vs closed form {float(w)!r}: error '
+                                      f'{abs(float(Q(float(g)) - w)) if g is not None else None!r} > 16(d+2)t eps spread = {tol:.3g} (spread of the losses {spread:.3g})'))
+    return Result(True, nontrivial=explained >= 3, labels=['pfi', 'tight', 'tight_by_reference', 'exact_arithmetic_unsupported'])
 
 
 @st.composite
@@ -215,15 +263,26 @@ def tight_cases(draw):
     cfg['model']['outs'][0]['label'] = 'output'
     for k in ('out_scale', 'opt', 'array_out'):
         cfg['model'].pop(k, None)
-    cfg['n_inner'] = 1
+    # SMALL magnitudes: all data scaled by 2^-shift (still exact), no offset, and TWO inner samples (the mean of two exact losses is exact):
+    # an absolute quantisation of the contributions (rounding to so-and-so many decimals) is invisible at magnitude 1 and fatal at 1e-9
+    shift = draw(st.sampled_from([0, 0, 15, 20]))
+    cfg['n_inner'] = 2 if shift else 1
     for r in cfg['stream']:
-        r['x'] = [int(Q(v)) for v in r['x']]
-        r['y'] = int(Q(r['y']))
+        r['x'] = [int(Q(v)) if not shift else f'{int(Q(v))}/{2 ** shift}' for v in r['x']]
+        r['y'] = int(Q(r['y'])) if not shift else f'{int(Q(r["y"]))}/{2 ** shift}'
         r['n_inner'] = None
         r['opt'] = None
-    cfg['loss'] = {'kind': draw(st.sampled_from(['sq', 'abs', 'poly'])), 'c': [draw(st.integers(-3, 3)) for _ in range(4)],
-                   'offset': draw(st.sampled_from([2 ** 30, 2 ** 40, -2 ** 36]))}
-    return {'cls': 'pfi', 'cfg': cfg, 'tight': True}
+    if shift:
+        cfg['loss'] = {'kind': 'sq', 'c': [0, 0, 0, 0]}
+        cfg['prefill'] = 0
+        cfg['imputer'] = {'kind': 'marginal', 'strategy': draw(st.sampled_from(['joint', 'product']))}
+        for o in cfg['model']['outs']:
+            o['b'] = 0                      # a homogeneous model: outputs scale with the data
+            o['pair'] = None
+    else:
+        cfg['loss'] = {'kind': draw(st.sampled_from(['sq', 'abs', 'poly'])), 'c': [draw(st.integers(-3, 3)) for _ in range(4)],
+                       'offset': draw(st.sampled_from([2 ** 30, 2 ** 40, -2 ** 36]))}
+    return {'cls': 'pfi', 'cfg': cfg, 'tight': True, 'shift': shift}
 
 
 def run_quiet_tail(case):
